@@ -4,6 +4,7 @@ from __future__ import annotations
 import itertools
 import statistics
 
+from mc import seqdiff
 from mc.common import HarnessError, Stats, pmap, safe
 
 PROPERTY = 'C17'
@@ -11,7 +12,7 @@ LEVEL = 'exploration'
 RULE = ('rank_features_3MR on every relevance vector over a small value set for n=1..4 features, pair dictionaries that start empty (every '
         'lookup falls back to 0) and receive d non-default entries on ordered pairs (deviation bounding: every placement of d<=2 (quick) / '
         'd<=3 (thorough) entries, values {-1,0.5,1,2}, in the redundancy or the relation dictionary), a dense family over {0,1}, '
-        'strategies {median,mean,sum}, (alpha,beta) in {(1,1),(0,1),(1,0),(2,0.5),(0,0)}; structured families for n=5..30; '
+        'strategies {median,mean,sum}, (alpha,beta) in {(1,1),(0,1),(1,0),(2,0.5),(0,0)}; structured families for n=5..30; end-to-end: 3mr_ranks.tsv of 16 real pairwise MI-numba-3mr runs judged against the dictionaries rebuilt from pairwise_ranks.tsv; '
         'oracle: permutation, ranks 1..n, first = max relevance, every later pick maximises the recomputed objective (any maximiser accepted). '
         'distinct_nontrivial = cases with n>=3 and at least one non-default pair entry')
 ASSUMPTIONS = ['finite scores only (statement); ties: any maximiser accepted, tolerance 1e-12']
@@ -206,8 +207,119 @@ def _structured(_):
     return st
 
 
+def e2e_cases():
+    out = []
+    for ncols in (2, 3, 4, 5):
+        for lpos in (0, ncols):
+            for mb in (12, 24):
+                out.append({'kind': 'e2e', 'ncols': ncols, 'label_pos': lpos, 'minibatch_size': mb})
+    return out
+
+
+def e2e_text(ncols, lpos):
+    from mc.checks.c09 import lcg_stream
+    g = lcg_stream(3 + ncols)
+    cols = [f'c{j}' if j % 2 else f'z{j}' for j in range(ncols)]
+    names = list(cols)
+    names.insert(lpos, 'label')
+    lines = [','.join(names)]
+    for i in range(24):
+        row, prev = [], 0
+        for j in range(ncols):
+            v = (prev + next(g) % (2 + j % 2)) % (j + 3)
+            row.append(str(v))
+            prev = v * 2 + 1
+        row.insert(lpos, str((prev + next(g) % 3 // 2) % 2))
+        lines.append(','.join(row))
+    return '\n'.join(lines) + '\n', cols
+
+
+def judge_e2e(case):
+    """3mr_ranks.tsv of a real pairwise 3MR run: permutation of the non-label features, ranks 1..n, greedy-optimal w.r.t. the dictionaries rebuilt from pairwise_ranks.tsv"""
+    import math
+    import pandas as pd
+    from mc import pipeline
+    text, cols = e2e_text(case['ncols'], case['label_pos'])
+    ok, obs = safe(pipeline.run_task, text, dict(heuristic='MI-numba-3mr', target_ranking_only='False', minibatch_size=case['minibatch_size'], subsampling=1,
+                                                  include_cardinality_in_feature_names='False'))
+    if not ok:
+        return [f'ranking task raised {obs}']
+    mr, pw = obs['mrmr'], obs['pairwise']
+    if mr is None or pw is None:
+        return [f'3mr_ranks.tsv / pairwise_ranks.tsv missing (exit={obs["exit"]})']
+    feats = [r[0] for r in mr[1:]]
+    ranks = [int(r[1]) for r in mr[1:]]
+    fails = []
+    if sorted(feats) != sorted(cols):
+        return [f'3mr_ranks.tsv lists {feats}, the non-label features are {cols}']
+    if ranks != list(range(1, len(cols) + 1)):
+        fails.append(f'ranks {ranks}')
+    rows = [(a, b, float(s)) for a, b, s in pw[1:]]
+
+    def norm(d):
+        if not d:
+            return d
+        lo, hi = min(d.values()), max(d.values())
+        return None if hi == lo else {k: (v - lo) / (hi - lo) for k, v in d.items()}
+
+    rel = norm({a: s for a, b, s in rows if b == 'label' and ' AND_REL ' not in a and a != 'label'})
+    rln0 = norm({a: s for a, b, s in rows if b == 'label' and ' AND_REL ' in a})
+    red = norm({(a, b): s for a, b, s in rows if a != 'label' and b != 'label' and ' AND_REL ' not in a and ' AND_REL ' not in b})
+    if rel is None or red is None or rln0 is None or any(math.isnan(v) for d in (rel, red, rln0) for v in d.values()):
+        return fails + ['__degenerate__']     # degenerate normalisation: scores are not finite, the statement does not apply
+    rln = {}
+    for a, s in rln0.items():
+        x, y = a.split(' AND_REL ')
+        rln[(x, y)] = s
+        rln[(y, x)] = s
+    fails += judge(rel, red, rln, 'median', 1.0, 1.0, pd.DataFrame({'Feature': feats, '3MR_Ranking': ranks}))
+    return fails
+
+
+def _e2e(_):
+    st = Stats()
+    for case in e2e_cases():
+        fails = judge_e2e(case)
+        st.count('evaluations')
+        st.count('e2e_cases')
+        st.count('nontrivial')
+        if '__degenerate__' in fails:
+            fails = [f for f in fails if f != '__degenerate__']
+        else:
+            st.count('e2e_optimality_judged')
+        if fails:
+            st.violation(case, '; '.join(fails), {'kind': 'e2e'})
+    return st
+
+
+def seq_menu():
+    cs = structured_cases()
+    picks = [cs[0], cs[1], cs[17], cs[33]]
+    picks.append(mk_case({'f1': 1, 'b': 1, 'zeta': 0, 'A': 2}, {('A', 'b'): 1, ('A', 'f1'): 0.5}, {('A', 'zeta'): 2}, 'median', AB[0]))
+    picks.append(mk_case({'f1': 1, 'b': 1, 'zeta': 0, 'A': 2}, {('A', 'b'): 1, ('A', 'f1'): 0.5}, {('A', 'zeta'): 2}, 'mean', AB[3]))
+    return picks
+
+
+def seq_call(case):
+    rel = dict(case['rel'])
+    red = {tuple(k): v for k, v in case['red']}
+    rln = {tuple(k): v for k, v in case['rln']}
+    out = fn()(rel, red, rln, case['strategy'], case['alpha'], case['beta'])
+    return {'features': [str(x) for x in out['Feature']], 'ranks': [int(x) for x in out['3MR_Ranking']], 'inputs_after': [sorted(map(str, rel.items())), sorted(map(str, red.items())), sorted(map(str, rln.items()))]}
+
+
+def _seqdiff(_):
+    st = Stats()
+    seqdiff.run(seq_call, seq_menu(), 2, st, lambda seq, pos: {'kind': 'seqdiff', 'seq': list(seq)}, {'kind': 'history_dependent'})
+    return st
+
+
 def _dispatch(item):
     k, job = item
+    if k == 'seqdiff':
+        return _seqdiff(job)
+    if k == 'e2e':
+        return _e2e(job)
     return {'sparse': _sparse, 'dense': _dense, 'structured': _structured}[k](job)
 
 
@@ -228,6 +340,8 @@ def run(ctx):
     if ctx.thorough:
         jobs += [('dense', (4, lo, lo + 128)) for lo in range(0, 2 ** 12, 128)]   # n=4: all redundancy patterns, no relation entries
     jobs.append(('structured', None))
+    jobs.append(('seqdiff', None))
+    jobs.append(('e2e', None))
     for st in pmap(_dispatch, jobs):
         ctx.stats.merge(st)
     ctx.extra['deviation_bound'] = 3 if ctx.thorough else 2
@@ -236,4 +350,8 @@ def run(ctx):
 
 
 def eval_case(case):
+    if case.get('kind') == 'seqdiff':
+        return seqdiff.replay(seq_call, seq_menu(), case['seq'])
+    if case.get('kind') == 'e2e':
+        return [f for f in judge_e2e(case) if f != '__degenerate__']
     return run_case(case)
